@@ -95,7 +95,7 @@ pub fn get_parity_matrix_row(cap_n: u32, cap_m: u32, buf: &mut BitArray<[u8; MAX
     buf.fill(false);
 
     let m = u32::from(cap_m.is_power_of_two());
-    let mut x = 1 + (1001_u32.wrapping_mul(cap_n));
+    let mut x = 1_u32.wrapping_add(1001_u32.wrapping_mul(cap_n));
     let mut nb_coeff = 0;
     while nb_coeff < (cap_m >> 1_u32) {
         let mut r = 1 << 16_u32;
